@@ -82,6 +82,17 @@ theorem ascii_emits_documented_substitute (enc : PStr) (he : enc ∈ carriers) (
 
 example : convertFrom nWindows1252 .ascii [0x99] = some (ofS "(TM)") := of_evalsTo (by decide +kernel)
 
+/-- The documented substitutes, pinned: the 32 entries of `MS_CHARS_TO_ASCII` that can ever be used
+    (keys 0x80–0x9F) are the ones bs4 4.13.0 documents in its source — EUR , f ,, ... + ++ ^ % S < OE ? Z ? ?
+    ' ' " " * - -- ~ (TM) s > oe ? z Y (and a blank for 0x81).  Any change of an entry breaks this. -/
+theorem ascii_substitutes_are_the_documented_ones :
+    smartBytes.map (fun b => liveTables.toAscii.lookup b) =
+      [some [69, 85, 82], some [32], some [44], some [102], some [44, 44], some [46, 46, 46], some [43], some [43, 43],
+       some [94], some [37], some [83], some [60], some [79, 69], some [63], some [90], some [63],
+       some [63], some [39], some [39], some [34], some [34], some [42], some [45], some [45, 45],
+       some [126], some [40, 84, 77, 41], some [115], some [62], some [111, 101], some [63], some [122], some [89]] :=
+  of_evalsTo (by decide +kernel)
+
 /-- No conversion requested: the result is the plain strict decoding in the proposed codec, for every
     codec name and every input. -/
 theorem none_mode_is_plain_decode (enc : PStr) (markup : Bytes) :
@@ -128,6 +139,9 @@ theorem other_bytes_untouched (enc : PStr) (mode : Mode) (b : Nat) (hb : isSmart
   | none => rfl
   | some c => simp [substituteWith, hb]
 
+example : isSmart 0xE9 = false ∧ convertFrom nWindows1252 .xml [0xE9] = convertFrom nWindows1252 .none [0xE9] :=
+  ⟨by decide, other_bytes_untouched _ _ _ (by decide)⟩
+
 /-- Conversion by a single-byte codec is byte-wise: if every byte on its own converts to its piece, the
     whole input converts to the concatenation of the pieces, in order.  (All modes, all table codecs.) -/
 theorem convert_is_bytewise (enc : PStr) (t : List (Option Nat)) (hc : codecOf enc = some (.table t)) (mode : Mode)
@@ -135,6 +149,9 @@ theorem convert_is_bytewise (enc : PStr) (t : List (Option Nat)) (hc : codecOf e
     (h : Bytewise (fun b p => convertFrom enc mode [b] = some p) markup pieces) :
     convertFrom enc mode markup = some pieces.flatten :=
   convertWith_bytewise liveTables enc t mode hc markup pieces h
+
+example : Bytewise (fun b p => convertFrom nWindows1252 .html [b] = some p) [0x61, 0x93] [[0x61], ofS "&ldquo;"] :=
+  .cons (of_evalsTo (by decide +kernel)) (.cons (of_evalsTo (by decide +kernel)) .nil)
 
 /-- Under a carrier encoding with a mode set, every byte 0–255 converts (no input is rejected). -/
 theorem carrier_conversion_total (enc : PStr) (he : enc ∈ carriers) (mode : Mode) (hm : mode ≠ .none)
@@ -149,13 +166,9 @@ theorem carrier_conversion_total (enc : PStr) (he : enc ∈ carriers) (mode : Mo
     | xml => exact List.all_eq_true.mp hx enc he
     | html => exact List.all_eq_true.mp hh enc he
     | ascii => exact List.all_eq_true.mp ha enc he
-  unfold totalCheck at this
-  simp only [Bool.and_eq_true, List.all_eq_true, List.mem_range] at this
-  refine ⟨?_, this.2 b hb⟩
-  have h1 := this.1
-  split at h1
-  · rename_i t ht; exact ⟨t, ht⟩
-  · exact absurd h1 (by simp)
+  exact totalCheck_spec liveTables mode enc this b hb
+
+example : nIso88592 ∈ carriers ∧ Mode.ascii ≠ .none ∧ (0xFF : Nat) < 256 := by decide +kernel
 
 /-- **The smart-quote half of the property for whole inputs.**  For a carrier encoding and mode `xml`
     or `html`, any byte string converts, and the result is a concatenation of one piece per input byte
@@ -201,16 +214,233 @@ theorem smart_quotes_preserve_characters (enc : PStr) (he : enc ∈ carriers) (m
     rw [← other_bytes_untouched enc mode b (by simpa using hs)]
     exact hp
 
-/-- The observable: when the first known encoding converts the input to a non-empty string — which by
-    `carrier_conversion_total`/`smart_quotes_preserve_characters` is always the case for a carrier with a
-    mode set and non-empty input — that string is `unicode_markup`, without replacement characters, and no
-    other candidate encoding is consulted. -/
-theorem unicode_markup_is_first_conversion (enc : PStr) (rest : List PStr) (mode : Mode) (markup : Bytes) (u : PStr)
-    (h : convertFrom enc mode markup = some u) (hu : u ≠ []) :
-    unicodeMarkup (enc :: rest) mode markup = (some u, false) :=
-  unicodeMarkupWith_first liveTables enc rest mode markup u h hu
+/-- For a carrier with a mode set the conversion of a whole input is the concatenation of the
+    conversions of its bytes (a total function of the input). -/
+theorem carrier_conversion_flatten (enc : PStr) (he : enc ∈ carriers) (mode : Mode) (hm : mode ≠ .none)
+    (markup : Bytes) (hbytes : ∀ b ∈ markup, b < 256) :
+    convertFrom enc mode markup = some ((markup.map fun b => (convertFrom enc mode [b]).getD []).flatten) := by
+  have hf : ∀ b ∈ markup, convertFrom enc mode [b] = some ((convertFrom enc mode [b]).getD []) := by
+    intro b hb
+    obtain ⟨_, hs⟩ := carrier_conversion_total enc he mode hm b (hbytes b hb)
+    obtain ⟨p, hp⟩ := Option.isSome_iff_exists.mp hs
+    simp [hp]
+  obtain ⟨⟨t, ht⟩, _⟩ := carrier_conversion_total enc he mode hm 0 (by omega)
+  exact convert_is_bytewise enc t ht mode markup _
+    (Bytewise.of_total (R := fun b p => convertFrom enc mode [b] = some p) _ markup hf)
 
-example : unicodeMarkup [nWindows1252] .none [0x61, 0x81] = (some [0x61, 0xFFFD], true) := of_evalsTo (by decide +kernel)
+/-- **"Un-escaping what was produced gives exactly the character the byte denotes" for whole strings.**
+    For a carrier encoding (whose byte table is `t`), mode `xml` or `html`, and any input without a literal
+    `&` whose bytes 0x80–0x9F are all defined in Windows-1252: un-escaping the converted text gives, character
+    for character, the input read with Windows-1252 for 0x80–0x9F and with the carrier's own table for every
+    other byte. -/
+theorem unescaping_the_conversion_gives_the_characters (enc : PStr) (he : enc ∈ carriers) (t : List (Option Nat))
+    (ht : codecOf enc = some (.table t)) (mode : Mode) (hm : mode = .xml ∨ mode = .html) (markup : Bytes)
+    (h : ∀ b ∈ markup, b < 256 ∧ b ≠ 38 ∧ (isSmart b = true → (cp1252At b).isSome = true)) :
+    ∃ u, convertFrom enc mode markup = some u ∧ unescapeAll u = markup.map (meantChar t) := by
+  have hx : unescCheckAll liveTables .xml = true := by decide +kernel
+  have hh : unescCheckAll liveTables .html = true := by decide +kernel
+  have hall : tableAll t (unescCheck liveTables mode enc) = true := by
+    have : unescCheckAll liveTables mode = true := by
+      rcases hm with rfl | rfl
+      · exact hx
+      · exact hh
+    have := List.all_eq_true.mp this enc he
+    simp only [ht] at this
+    exact this
+  have hne : mode ≠ .none := by rcases hm with rfl | rfl <;> simp
+  refine ⟨_, carrier_conversion_flatten enc he mode hne markup (fun b hb => (h b hb).1), ?_⟩
+  exact unescape_flatten liveTables mode enc t ht hall markup h
+
+example : unescapeAll (ofS "a&ldquo;" ++ ofS "b&#x178;") = [0x61, 0x201C, 0x62, 0x178] := of_evalsTo (by decide +kernel)
+
+/-- In particular for `windows-1252`: converting to references and un-escaping them again is the same as
+    not converting at all — plain Windows-1252 decoding of the input. -/
+theorem windows1252_conversion_unescapes_to_plain_decoding (mode : Mode) (hm : mode = .xml ∨ mode = .html) (markup : Bytes)
+    (h : ∀ b ∈ markup, b ≠ 38 ∧ (cp1252At b).isSome = true) :
+    ∃ u, convertFrom nWindows1252 mode markup = some u ∧ convertFrom nWindows1252 .none markup = some (unescapeAll u) := by
+  have hc : codecOf nWindows1252 = some (.table Gen.Detwingle.cp1252) := of_evalsTo (by decide +kernel)
+  have hw : nWindows1252 ∈ carriers := documented_carriers_present.1
+  have hl : Gen.Detwingle.cp1252.length = 256 := by decide +kernel
+  obtain ⟨u, h1, h2⟩ := unescaping_the_conversion_gives_the_characters nWindows1252 hw _ hc mode hm markup
+    (fun b hb => ⟨cp1252At_lt b hl (h b hb).2, (h b hb).1, fun _ => (h b hb).2⟩)
+  refine ⟨u, h1, ?_⟩
+  rw [none_mode_is_plain_decode, hc]
+  simp only [Option.bind_some, decodeStrict]
+  rw [decodeTable_map _ markup (fun b hb => (h b hb).2), h2]
+  congr 1
+  apply List.map_congr_left
+  intro b _
+  unfold meantChar cp1252At
+  split <;> rfl
+
+example : convertFrom nWindows1252 .none [0x61, 0x93, 0xE9, 0x9F] = some [0x61, 0x201C, 0xE9, 0x178] :=
+  of_evalsTo (by decide +kernel)
+example : ∀ b ∈ [0x61, 0x93, 0xE9, 0x9F], b ≠ 38 ∧ (cp1252At b).isSome = true := by decide +kernel
+
+/-! ### The constructor: byte-order marks, declarations, spellings of encoding names, history -/
+
+/-- The observable `UnicodeDammit(markup, [enc, …], smart_quotes_to=mode)`: when `find_codec` resolves the
+    first known encoding to `r` and `r` converts the BOM-stripped markup, that conversion is
+    `unicode_markup` (no replacement characters, `original_encoding = r`) — whatever byte-order mark the
+    input starts with, whatever encoding the document declares, whatever other encodings were passed. -/
+theorem unicode_markup_is_first_conversion (enc r : PStr) (rest : List PStr) (declared : Option PStr) (mode : Mode)
+    (markup : Bytes) (u : PStr) (hne : markup ≠ []) (hf : findCodec enc = some r)
+    (h : convertFrom r mode (stripBom markup).1 = some u) :
+    unicodeDammit (enc :: rest) declared mode markup = .ok u false (some r) :=
+  unicodeDammitWith_first liveTables enc r rest declared mode markup u hne hf h
+
+example : findCodec (ofS "ISO-8859-1") = some nIso88591 := of_evalsTo (by decide +kernel)
+example : convertFrom nIso88591 .xml (stripBom [0xEF, 0xBB, 0xBF, 0x93]).1 = some (ofS "&#x201C;") :=
+  of_evalsTo (by decide +kernel)
+example : unicodeDammit [nWindows1252] none .none [0x61, 0x81] = .ok [0x61, 0xFFFD] true (some nWindows1252) :=
+  of_evalsTo (by decide +kernel)
+
+/-- `strip_byte_order_mark` removes at most one of the five byte-order marks from the front and nothing
+    else; bytes 0x80–0x9F are never part of what is removed. -/
+theorem stripBom_removes_only_a_bom (markup : Bytes) :
+    ∃ pre, markup = pre ++ (stripBom markup).1 ∧
+      pre ∈ [[], [0xFE, 0xFF], [0xFF, 0xFE], [0xEF, 0xBB, 0xBF], [0, 0, 0xFE, 0xFF], [0xFF, 0xFE, 0, 0]] := by
+  unfold stripBom
+  split
+  · rename_i h; exact ⟨[0xFE, 0xFF], by rw [← h.1, List.take_append_drop], by simp⟩
+  · split
+    · rename_i h; exact ⟨[0xFF, 0xFE], by rw [← h.1, List.take_append_drop], by simp⟩
+    · split
+      · rename_i h; exact ⟨[0xEF, 0xBB, 0xBF], by rw [← h, List.take_append_drop], by simp⟩
+      · split
+        · rename_i h; exact ⟨[0, 0, 0xFE, 0xFF], by rw [← h, List.take_append_drop], by simp⟩
+        · split
+          · rename_i h; exact ⟨[0xFF, 0xFE, 0, 0], by rw [← h, List.take_append_drop], by simp⟩
+          · exact ⟨[], rfl, by simp⟩
+
+example : (stripBom [0xFF, 0xFE, 0x93, 0x00]).1 = [0x93, 0x00] := by decide
+example : (stripBom [0xFF, 0xFE, 0x00, 0x00, 0x93]).1 = [0x93] := by decide
+
+/-- Input that does not start with FE, FF, EF or 00 has no byte-order mark: nothing is stripped. -/
+theorem stripBom_id (b : Nat) (rest : Bytes) (h : b ≠ 0xFE ∧ b ≠ 0xFF ∧ b ≠ 0xEF ∧ b ≠ 0) :
+    stripBom (b :: rest) = (b :: rest, none) := by
+  obtain ⟨h1, h2, h3, h4⟩ := h
+  unfold stripBom
+  have e1 : ¬ ((b :: rest).take 2 = [0xFE, 0xFF] ∧ ((b :: rest).drop 2).take 2 ≠ [0, 0]) := by
+    cases rest <;> simp [h1]
+  have e2 : ¬ ((b :: rest).take 2 = [0xFF, 0xFE] ∧ ((b :: rest).drop 2).take 2 ≠ [0, 0]) := by
+    cases rest <;> simp [h2]
+  have e3 : ¬ ((b :: rest).take 3 = [0xEF, 0xBB, 0xBF]) := by
+    rcases rest with _ | ⟨x, _ | ⟨y, r⟩⟩ <;> simp [h3]
+  have e4 : ¬ ((b :: rest).take 4 = [0, 0, 0xFE, 0xFF]) := by
+    rcases rest with _ | ⟨x, _ | ⟨y, _ | ⟨z, r⟩⟩⟩ <;> simp [h4]
+  have e5 : ¬ ((b :: rest).take 4 = [0xFF, 0xFE, 0, 0]) := by
+    rcases rest with _ | ⟨x, _ | ⟨y, _ | ⟨z, r⟩⟩⟩ <;> simp [h2]
+  simp only [e1, e2, e3, e4, e5, if_false]
+
+example : stripBom [0x93, 0xFE, 0xFF] = ([0x93, 0xFE, 0xFF], none) := stripBom_id _ _ (by decide)
+
+/-- A spelling CPython's registry accepts as it stands (and that is not one of the two `CHARSET_ALIASES`
+    keys) is resolved to its lower-cased self — so `ISO-8859-1` or `Windows-1252` in any letter case
+    reach the carrier test as the documented names, while `ISO_8859-1`, `latin-1`, `cp1252` stay what they
+    are and are *not* carriers (the test at dammit.py:942 compares names, not codecs). -/
+theorem findCodec_of_accepted_spelling (name : PStr) (hk : codecKnown name = true)
+    (ha : Gen.Detwingle.charsetAliases.lookup name = none) : findCodec name = some (asciiLower name) := by
+  have hne : name ≠ [] := by
+    intro h; subst h; revert hk; decide +kernel
+  unfold findCodec pyCodec
+  simp [ha, hne, hk]
+
+example : codecKnown (ofS "Windows-1252") = true ∧ Gen.Detwingle.charsetAliases.lookup (ofS "Windows-1252") = none ∧
+    asciiLower (ofS "Windows-1252") = nWindows1252 := by decide +kernel
+example : findCodec (ofS "ISO_8859-1") = some (ofS "iso_8859-1") := of_evalsTo (by decide +kernel)
+example : isCarrier (ofS "iso_8859-1") = false := by decide +kernel
+
+/-- **The smart-quote half of the property at the observable, at full strength.**  For every spelling
+    `enc` that `find_codec` resolves to one of the carrier names, every mode `xml`/`html`, every non-empty
+    byte string `markup` — with or without a byte-order mark, with or without `<`, declarations, other
+    known encodings after the first — `UnicodeDammit(markup, [enc, …], smart_quotes_to=mode).unicode_markup`
+    is the in-order concatenation of one piece per byte of the BOM-stripped markup: a reference
+    un-escaping to the byte's Windows-1252 character for a defined byte 0x80–0x9F, an `&`-free placeholder
+    for an undefined one, the plain decoding for every other byte; no replacement characters. -/
+theorem constructor_preserves_characters (enc r : PStr) (rest : List PStr) (declared : Option PStr)
+    (hf : findCodec enc = some r) (hr : r ∈ carriers) (mode : Mode) (hm : mode = .xml ∨ mode = .html)
+    (markup : Bytes) (hne : markup ≠ []) (hbytes : ∀ b ∈ markup, b < 256) :
+    ∃ pieces, unicodeDammit (enc :: rest) declared mode markup = .ok pieces.flatten false (some r) ∧
+      Bytewise (fun b p =>
+        if isSmart b = true then
+          (match cp1252At b with
+           | some ch => unescapeRef p = some ch
+           | none => 38 ∉ p)
+        else convertFrom r .none [b] = some p) (stripBom markup).1 pieces := by
+  have hsub : ∀ b ∈ (stripBom markup).1, b < 256 := by
+    obtain ⟨pre, hpre, _⟩ := stripBom_removes_only_a_bom markup
+    intro b hb
+    exact hbytes b (by rw [hpre]; simp [hb])
+  obtain ⟨pieces, h1, h2⟩ := smart_quotes_preserve_characters r hr mode hm (stripBom markup).1 hsub
+  exact ⟨pieces, unicode_markup_is_first_conversion enc r rest declared mode markup _ hne hf h1, h2⟩
+
+example : unicodeDammit [ofS "ISO-8859-2", nUtf8] (some nUtf8) .html ([0xEF, 0xBB, 0xBF] ++ ofS "<?xml?>" ++ [0x93])
+    = .ok (ofS "<?xml?>&ldquo;") false (some nIso88592) := of_evalsTo (by decide +kernel)
+
+/-- The same for `ascii`: each byte 0x80–0x9F becomes its documented substitute, every other byte its
+    plain decoding. -/
+theorem constructor_ascii_substitutes (enc r : PStr) (rest : List PStr) (declared : Option PStr)
+    (hf : findCodec enc = some r) (hr : r ∈ carriers) (markup : Bytes) (hne : markup ≠ []) (hbytes : ∀ b ∈ markup, b < 256) :
+    ∃ pieces, unicodeDammit (enc :: rest) declared .ascii markup = .ok pieces.flatten false (some r) ∧
+      Bytewise (fun b p =>
+        if isSmart b = true then liveTables.toAscii.lookup b = some p
+        else convertFrom r .none [b] = some p) (stripBom markup).1 pieces := by
+  have hsub : ∀ b ∈ (stripBom markup).1, b < 256 := by
+    obtain ⟨pre, hpre, _⟩ := stripBom_removes_only_a_bom markup
+    intro b hb
+    exact hbytes b (by rw [hpre]; simp [hb])
+  let f : Nat → PStr := fun b => (convertFrom r .ascii [b]).getD []
+  have hf' : ∀ b ∈ (stripBom markup).1, convertFrom r .ascii [b] = some (f b) := by
+    intro b hb
+    obtain ⟨_, hs⟩ := carrier_conversion_total r hr .ascii (by simp) b (hsub b hb)
+    obtain ⟨p, hp⟩ := Option.isSome_iff_exists.mp hs
+    simp [f, hp]
+  obtain ⟨⟨t, ht⟩, _⟩ := carrier_conversion_total r hr .ascii (by simp) 0 (by omega)
+  have hbw := Bytewise.of_total (R := fun b p => convertFrom r .ascii [b] = some p) f _ hf'
+  refine ⟨_, unicode_markup_is_first_conversion enc r rest declared .ascii markup _ hne hf
+    (convert_is_bytewise r t ht .ascii _ _ hbw), ?_⟩
+  apply hbw.mono
+  intro b p _ hp
+  by_cases hs : isSmart b = true
+  · simp only [hs, if_true]
+    obtain ⟨s, h1, h2, _⟩ := ascii_emits_documented_substitute r hr b hs
+    rw [hp] at h2; simp only [Option.some.injEq] at h2; subst h2; exact h1
+  · simp only [hs, Bool.false_eq_true, if_false]
+    rw [← other_bytes_untouched r .ascii b (by simpa using hs)]
+    exact hp
+
+example : unicodeDammit [nWindows1252] none .ascii (ofS "a" ++ [0x99, 0x85])
+    = .ok (ofS "a(TM)...") false (some nWindows1252) := of_evalsTo (by decide +kernel)
+
+/-- No conversion requested, at the observable: when `find_codec` resolves the first known encoding to a
+    single-byte codec that decodes the BOM-stripped input, `unicode_markup` is that plain decoding — each
+    byte 0x80–0x9F appears as the character the codec assigns to it (the Windows-1252 character itself under
+    `windows-1252`). -/
+theorem constructor_no_conversion (enc r : PStr) (rest : List PStr) (declared : Option PStr) (t : List (Option Nat))
+    (hf : findCodec enc = some r) (ht : codecOf r = some (.table t)) (markup : Bytes) (hne : markup ≠ []) (u : PStr)
+    (hu : decodeTable t (stripBom markup).1 = some u) :
+    unicodeDammit (enc :: rest) declared .none markup = .ok u false (some r) := by
+  apply unicode_markup_is_first_conversion enc r rest declared .none markup u hne hf
+  rw [none_mode_is_plain_decode, ht]
+  simpa [decodeStrict] using hu
+
+example : unicodeDammit [nWindows1252] none .none [0x93, 0xE9, 0x9F] = .ok [0x201C, 0xE9, 0x178] false (some nWindows1252) :=
+  of_evalsTo (by decide +kernel)
+example : decodeTable Gen.Detwingle.cp1252 (stripBom [0x93, 0xE9, 0x9F]).1 = some [0x201C, 0xE9, 0x178] :=
+  of_evalsTo (by decide +kernel)
+
+/-- A process as a sequence of constructor calls.  The code-mirror threads the only state the calls
+    could share — none: `tried_encodings` is reset per object (dammit.py:778) and `find_codec` reads only
+    class constants — so every call's outcome is what the same call gives on its own, whatever came
+    before it.  (The harness runs real call histories in one process against fresh-process runs.) -/
+theorem call_outcome_independent_of_history (before : List DammitCall) (c : DammitCall) (after : List DammitCall) :
+    (runCalls (before ++ c :: after))[before.length]? = some (runCall c) := by
+  rw [runCalls_eq_map]; simp
+
+example : runCalls [⟨[ofS "ISO_8859-1"], none, .xml, [0x93]⟩, ⟨[nIso88591], none, .xml, [0x93]⟩]
+    = [.ok [0x93] false (some (ofS "iso_8859-1")), .ok (ofS "&#x201C;") false (some nIso88591)] :=
+  of_evalsTo (by decide +kernel)
 
 example : convertFrom nWindows1252 .html (ofS "a" ++ [0x93, 0xE9, 0x94]) =
     some (ofS "a&ldquo;" ++ [0xE9] ++ ofS "&rdquo;") := of_evalsTo (by decide +kernel)
@@ -240,6 +470,21 @@ theorem detwingleImpl_eq (bs : Bytes) : detwingleImpl bs = detwingle bs := detwi
 example : detwingleImpl [0x61, 0x93, 0xE2, 0x82, 0xAC, 0x94] =
     some [0x61, 0xE2, 0x80, 0x9C, 0xE2, 0x82, 0xAC, 0xE2, 0x80, 0x9D] := of_evalsTo (by decide +kernel)
 
+/-- The public entry point with its default arguments (`main_encoding="utf8"`,
+    `embedded_encoding="windows-1252"`) passes the argument checks and returns what the loop computes; so
+    every theorem below about `detwingle` is a theorem about `UnicodeDammit.detwingle(in_bytes)`. -/
+theorem detwingle_call_default (bs : Bytes) :
+    ∃ out, detwingle bs = some out ∧ detwingleCall bs (ofS "utf8") (ofS "windows-1252") = .ok out := by
+  obtain ⟨out, hout⟩ := Option.isSome_iff_exists.mp (detwingle_total bs)
+  refine ⟨out, hout, ?_⟩
+  have h1 : asciiLower ((ofS "windows-1252").map fun c => if c = 95 then 45 else c) = ofS "windows-1252" := by decide +kernel
+  have h2 : asciiLower (ofS "utf8") = ofS "utf8" := by decide +kernel
+  unfold detwingleCall
+  simp only [h1, h2, true_or, not_true_eq_false, if_false, detwingleImpl_eq, hout]
+
+example : detwingleCall [0x61, 0x93] (ofS "latin-1") (ofS "windows-1252") = .notImplemented := of_evalsTo (by decide +kernel)
+example : detwingleCall [0x61, 0x93] (ofS "UTF-8") (ofS "WINDOWS_1252") = .ok [0x61, 0xE2, 0x80, 0x9C] := of_evalsTo (by decide +kernel)
+
 /-- **Valid UTF-8 is returned unchanged** — for every byte list that is the UTF-8 encoding of a
     sequence of Unicode scalar values. -/
 theorem detwingle_valid_id (bs : Bytes) (h : ValidUtf8 bs) : detwingle bs = some bs := by
@@ -257,6 +502,11 @@ example : ValidUtf8 [0x61, 0xC3, 0xA9, 0xE2, 0x82, 0xAC, 0xF0, 0x9F, 0x98, 0x80]
 theorem detwingle_inert_id (chunks : List Bytes) (tail : Bytes) (h : ∀ s ∈ chunks, Chunk liveCfg s)
     (ht : Tail liveCfg tail) : detwingle (chunks.flatten ++ tail) = some (chunks.flatten ++ tail) :=
   scan_chunks liveCfg chunks tail h ht
+
+example : Chunk liveCfg [0x41] ∧ Chunk liveCfg [0x81] ∧ Chunk liveCfg [0xE2, 0x93, 0x93] ∧ Tail liveCfg [0xF0, 0x93] :=
+  ⟨.plain _ (by decide +kernel) (by decide +kernel), .plain _ (by decide +kernel) (by decide +kernel),
+   .multi _ 2 _ (by decide +kernel) (of_evalsTo (by decide +kernel)) rfl,
+   .trunc _ 3 _ (by decide +kernel) (of_evalsTo (by decide +kernel)) (by decide)⟩
 
 example : detwingle [0xE2, 0x93, 0x93, 0x41, 0xF0, 0x93] = some [0xE2, 0x93, 0x93, 0x41, 0xF0, 0x93] :=
   of_evalsTo (by decide +kernel)
@@ -296,19 +546,90 @@ example (bs : Bytes) : detwingleWith { liveCfg with table := (0xE1, [0xC3, 0xA1]
 /-- 0xE1 is in the lead-byte range, so its entry is one of the dead ones. -/
 theorem entry_E1_unreachable : liveCfg.isMarker 0xE1 = true ∧ ¬ liveCfg.Convertible 0xE1 := by decide +kernel
 
+/-- **Every embeddable Windows-1252 byte is mapped per the standards** (whole-range table obligation,
+    independent of which keys the library's table happens to have): a byte ≥ 0x80 that Windows-1252 defines
+    and that is not a possible UTF-8 lead byte (C2–F4) is *not* taken as a lead byte by the scan and *is*
+    mapped to the UTF-8 encoding of its Windows-1252 character.  Fails to build if an entry is missing
+    (0xFF in 4.13.0), wrong, or if the lead-byte ranges swallow such a byte (C0/C1). -/
+theorem embeddable_bytes_converted (b : Nat) (hb : Embeddable b) :
+    liveCfg.isMarker b = false ∧ ∃ ch, cp1252At b = some ch ∧ IsScalar ch ∧ liveCfg.conv? b = some (encodeUtf8 ch) :=
+  Cfg.embed_of_check liveCfg (by decide +kernel) b hb
+
+example : Embeddable 0x80 ∧ Embeddable 0xC0 ∧ Embeddable 0xC1 ∧ Embeddable 0xFF ∧ ¬ Embeddable 0x81 ∧ ¬ Embeddable 0xE1 := by
+  decide +kernel
+example : (List.range 256).filter (fun b => decide (Embeddable b)) = (List.range 256).filter (fun b => decide (liveCfg.Convertible b)) := by
+  decide +kernel
+
+/-- …and nothing else is ever converted: the bytes the scan replaces are exactly the embeddable ones. -/
+theorem convertible_iff_embeddable (b : Nat) : liveCfg.Convertible b ↔ Embeddable b := by
+  constructor
+  · exact Cfg.convertible_embeddable liveCfg (by decide +kernel) (by decide +kernel) b
+  · intro hb
+    obtain ⟨hm, ch, _, _, hc⟩ := embeddable_bytes_converted b hb
+    exact ⟨hm, by simp [hc]⟩
+
+/-- Whole-table obligation on `WINDOWS_1252_TO_UTF8` as generated: every one of its entries has a key in
+    0x80–0xFF, no key occurs twice, and every entry either sits in the dead lead-byte range or is the UTF-8
+    encoding of the key's Windows-1252 character. -/
+theorem windows1252_table_whole :
+    (liveCfg.table.map (·.1)).Nodup ∧
+    ∀ kv ∈ liveCfg.table, 0x80 ≤ kv.1 ∧ kv.1 < 256 ∧
+      (liveCfg.isMarker kv.1 = true ∨ ∃ ch, cp1252At kv.1 = some ch ∧ kv.2 = encodeUtf8 ch) := by
+  refine ⟨by decide +kernel, ?_⟩
+  have h : liveCfg.table.all (fun kv => decide (0x80 ≤ kv.1) && decide (kv.1 < 256) &&
+      (liveCfg.isMarker kv.1 || (match cp1252At kv.1 with | some ch => kv.2 == encodeUtf8 ch | none => false))) = true := by
+    decide +kernel
+  intro kv hkv
+  have := List.all_eq_true.mp h kv hkv
+  simp only [Bool.and_eq_true, decide_eq_true_eq, Bool.or_eq_true] at this
+  refine ⟨this.1.1, this.1.2, ?_⟩
+  rcases this.2 with hm | hv
+  · exact .inl hm
+  · right
+    split at hv
+    · rename_i ch hch; exact ⟨ch, hch, by simpa using hv⟩
+    · exact absurd hv (by simp)
+
+/-- The class attributes are exactly what the standards say: lead bytes are C2–F4 with UTF-8's sizes. -/
+theorem live_cfg_exact : liveCfg.Exact where
+  sound := live_markers_sound
+  marker_range := marker_range_of liveCfg (by decide +kernel) (by decide +kernel)
+  conv_ok := fun b hb => by
+    obtain ⟨ch, _, h2, h3⟩ := table_agrees_with_cp1252_where_reachable b hb
+    exact ⟨ch, h2, h3⟩
+
+/-- **For every byte list**: `detwingle` only ever replaces embeddable bytes by their table value —
+    `Replaced` says the output is the input, in order, with some bytes `b` (not lead bytes, having a table
+    entry) swapped for that entry; nothing is dropped, duplicated, reordered or otherwise altered.  This is
+    "all surrounding text is untouched" without any assumption on the input. -/
+theorem detwingle_only_replaces_embedded_bytes (bs out : Bytes) (h : detwingle bs = some out) :
+    Replaced liveCfg bs out :=
+  scan_replaced liveCfg 0 bs out h
+
+example : detwingle [0xE0, 0x80, 0x80, 0xC0, 0x80, 0xF0, 0x93] =
+    some [0xE0, 0x80, 0x80, 0xC3, 0x80, 0xE2, 0x82, 0xAC, 0xF0, 0x93] := of_evalsTo (by decide +kernel)
+
+/-- **For every byte list**: `detwingle` is idempotent — valid or not, truncated or not, whatever it
+    returns is returned unchanged when fed back. -/
+theorem detwingle_idempotent (bs out : Bytes) (h : detwingle bs = some out) : detwingle out = some out :=
+  scan_idem liveCfg (Cfg.selfInert_of_exact liveCfg live_cfg_exact) 0 bs out h
+
+example : detwingle [0x93, 0xE2, 0x93] = some [0xE2, 0x80, 0x9C, 0xE2, 0x93] := of_evalsTo (by decide +kernel)
+example : detwingle [0xE2, 0x80, 0x9C, 0xE2, 0x93] = some [0xE2, 0x80, 0x9C, 0xE2, 0x93] := of_evalsTo (by decide +kernel)
+
 /-- **UTF-8 text with embedded single Windows-1252 bytes.**  For every input that is a concatenation of
     segments, each the UTF-8 encoding of a scalar value or a single convertible byte, the result is the
     UTF-8 encoding of the text in which each embedded byte has become its Windows-1252 character and
     every other character is unchanged, in order. -/
 theorem detwingle_embedded (ps : List Piece)
-    (h : ∀ p ∈ ps, match p with | .ch c => IsScalar c | .emb b => liveCfg.Convertible b) :
+    (h : ∀ p ∈ ps, match p with | .ch c => IsScalar c | .emb b => Embeddable b) :
     detwingle (ps.flatMap Piece.src)
       = some (utf8 (ps.map fun p => match p with | .ch c => c | .emb b => (cp1252At b).getD 0xFFFD)) := by
   have hok : ∀ p ∈ ps, p.Ok liveCfg := by
     intro p hp; have := h p hp
     cases p with
     | ch c => exact scalar_lt this
-    | emb b => exact this
+    | emb b => exact (convertible_iff_embeddable b).mpr this
   unfold detwingle detwingleWith
   rw [scan_pieces liveCfg live_markers_sound ps hok]
   congr 1
@@ -319,12 +640,12 @@ theorem detwingle_embedded (ps : List Piece)
   cases p with
   | ch c => rfl
   | emb b =>
-    obtain ⟨ch, h1, _, h3⟩ := table_agrees_with_cp1252_where_reachable b (h _ hp)
+    obtain ⟨ch, h1, _, h3⟩ := table_agrees_with_cp1252_where_reachable b ((convertible_iff_embeddable b).mpr (h _ hp))
     simp [Piece.out, h1, h3]
 
 /-- …and that result is valid UTF-8 (and each embedded byte's character exists in Windows-1252). -/
 theorem detwingle_embedded_valid (ps : List Piece)
-    (h : ∀ p ∈ ps, match p with | .ch c => IsScalar c | .emb b => liveCfg.Convertible b) :
+    (h : ∀ p ∈ ps, match p with | .ch c => IsScalar c | .emb b => Embeddable b) :
     ∃ out, detwingle (ps.flatMap Piece.src) = some out ∧ ValidUtf8 out := by
   refine ⟨_, detwingle_embedded ps h, _, ?_, rfl⟩
   intro c hc
@@ -334,7 +655,7 @@ theorem detwingle_embedded_valid (ps : List Piece)
   cases p with
   | ch c => exact this
   | emb b =>
-    obtain ⟨ch, h1, h2, _⟩ := table_agrees_with_cp1252_where_reachable b this
+    obtain ⟨ch, h1, h2, _⟩ := table_agrees_with_cp1252_where_reachable b ((convertible_iff_embeddable b).mpr this)
     simpa [h1] using h2
 
 example : detwingle ([Piece.ch 0x61, .emb 0x93, .ch 0x20AC, .emb 0xA9].flatMap Piece.src)
@@ -362,5 +683,42 @@ example : decodeUtf8 [0xED, 0xA0, 0x80] = none := of_evalsTo (by decide +kernel)
 example : decodeUtf8 [0xC0, 0x80] = none := of_evalsTo (by decide +kernel)
 example : decodeUtf8 [0xF4, 0x90, 0x80, 0x80] = none := of_evalsTo (by decide +kernel)
 example : decodeUtf8 [0xE2, 0x82, 0xAC] = some [0x20AC] := of_evalsTo (by decide +kernel)
+
+/-- **For every byte list**: the result is valid UTF-8 *exactly when* the input is UTF-8 text with
+    embedded Windows-1252 bytes — a concatenation of encodings of scalar values and single embeddable
+    bytes.  (So overlong forms after a lead byte, truncated sequences, the five undefined bytes, stray
+    continuation-range bytes inside a multi-byte slot all leave the result invalid, and nothing else does.) -/
+theorem detwingle_output_valid_iff (bs out : Bytes) (h : detwingle bs = some out) :
+    ValidUtf8 out ↔ ∃ ps : List Piece, (∀ p ∈ ps, match p with | .ch c => IsScalar c | .emb b => Embeddable b) ∧
+      bs = ps.flatMap Piece.src := by
+  constructor
+  · intro hv
+    obtain ⟨t, ht⟩ := Option.isSome_iff_exists.mp ((valid_utf8_iff_decodes out).mp hv)
+    obtain ⟨ps, hps, hbs⟩ := scan_valid_inv liveCfg live_cfg_exact bs.length bs out t (Nat.le_refl _) h ht
+    refine ⟨ps, ?_, hbs⟩
+    intro p hp
+    have := hps p hp
+    cases p with
+    | ch c => exact this
+    | emb b => exact (convertible_iff_embeddable b).mp this
+  · rintro ⟨ps, hps, rfl⟩
+    obtain ⟨out', h1, h2⟩ := detwingle_embedded_valid ps hps
+    rw [h] at h1
+    simp only [Option.some.injEq] at h1
+    subst h1; exact h2
+
+example : ¬ ValidUtf8 [0xE0, 0x80, 0x80] := by
+  rw [valid_utf8_iff_decodes]; decide +kernel
+
+/-- both sides of the equivalence are inhabited: a valid result comes from a piece list … -/
+example : detwingle ([Piece.ch 0x1F600, .emb 0xFF, .emb 0xC0].flatMap Piece.src) = some (utf8 [0x1F600, 0xFF, 0xC0]) :=
+  of_evalsTo (by decide +kernel)
+/-- … and an input that is no such concatenation (an overlong form in a 3-byte slot, a truncated tail, an
+    undefined byte) gives an invalid result -/
+example : detwingle [0xE0, 0x80, 0x80] = some [0xE0, 0x80, 0x80] ∧ detwingle [0x81] = some [0x81] ∧
+    detwingle [0x93, 0xE2, 0x82] = some [0xE2, 0x80, 0x9C, 0xE2, 0x82] :=
+  ⟨of_evalsTo (by decide +kernel), of_evalsTo (by decide +kernel), of_evalsTo (by decide +kernel)⟩
+example : decodeUtf8 [0x81] = none ∧ decodeUtf8 [0xE2, 0x80, 0x9C, 0xE2, 0x82] = none :=
+  ⟨of_evalsTo (by decide +kernel), of_evalsTo (by decide +kernel)⟩
 
 end BS.Props.C19
